@@ -179,36 +179,13 @@ theorem ph2ph_preserves {N0 : Nat} (emb : Fin N0 → Fin N)
 
 /-! ## non-vacuity -/
 
-/-- a faithful character of `ℤ/2` over ℚ: `ζ = −1` -/
-def zeta2 : Zeta ℚ 2 where
-  z := fun t => if t % 2 = 0 then 1 else -1
-  z_add := by
-    intro a b
-    rcases Int.emod_two_eq_zero_or_one a with ha | ha <;> rcases Int.emod_two_eq_zero_or_one b with hb | hb <;>
-      simp [Int.add_emod, ha, hb]
-  z_zero := by simp
-  z_period := by simp
-  z_unit := by
-    intro a
-    rcases Int.emod_two_eq_zero_or_one a with ha | ha <;> simp [ha] <;> ext <;> simp
-  faithful := by
-    intro t h
-    rcases Int.emod_two_eq_zero_or_one t with ht | ht
-    · exact Int.dvd_of_emod_eq_zero ht
-    · simp [ht] at h
-      have := congrArg Cx.re h
-      simp at this
-      norm_num at this
+example : Lex.wf = true := Lex_wf
 
-/-- one atom per cell, two cells along `a`: q ∈ {0, 1/2}, lattice vectors 0 and `a`. -/
-def Lex : Lat 1 2 2 where
-  s2pp := fun _ => 0
-  base := fun _ => 0
-  kq := fun q => ((q.1 : Int), 0, 0)
-  R := fun k => ((k.1 : Int), 0, 0)
-  Nd := 2
-
-example : Lex.wf = true := by decide
+/-- the hypotheses of the round-trip theorems are satisfiable: `zeta2` is a faithful character of
+`ℤ/2` over ℚ, `Lex` passes the certificate, `ψ = 1`, multiplicities 1 or 2. -/
+example : ∃ (Z : Zeta ℚ Lex.Nd) (ψ : Fin 2 → Fin 1 → Fin 1 → Cx ℚ), (∀ q j i, (ψ q j i).conj * ψ q j i = 1) ∧
+    (∀ q q' j i, P3.Dvd Lex.Nd ((Lex.kq q).add (Lex.kq q')) → ψ q' j i = (ψ q j i).conj) :=
+  ⟨zeta2, fun _ _ _ => 1, fun _ _ _ => by simp, fun _ _ _ _ _ => by simp⟩
 
 example : snfWf ((2, 1, 0), (0, 1, 0), (-1, 0, 2)) (1, 1, 4) ((0, 1, 0), (-1, 0, 0), (2, 0, 1))
     ((0, 0, 1), (1, 0, -1), (0, 1, 2)) = true := by decide
